@@ -197,3 +197,7 @@ def run(ck):
               "and of the pair loop of CookieJar::addFromRaw definitely consumes input",
               key_pred=lambda k: "Cookie" in k, min_instances=2)
     lib.no_stale_static_rule(ck, "C17-R5", ('cookie.cc',), "the cookie reader and writer")
+    ck.borrow("C18", ["C18-R1"], "C17-R6",
+              "the attribute names of a cookie are recognised with match_string, which compares only after it has established that as many "
+              "bytes as the name is long are left in the text: cookie text that ends in the beginning of an attribute name is not read past its end",
+              key_pred=lambda k: k.startswith("match_string") or k.startswith("match_raw"), min_instances=2)
